@@ -614,5 +614,92 @@ class AppOnDecoratorInner(_PassThrough):
     returns = 'func'
 
 
-CONTRACTS = [AppRemoveHook(), AppOn(), AppOnDecoratorInner(), RemoveNamedRouters(), RouterRemove(), HookInstaller(), AddRoute(), RemoveRoute(), RemoveRouteHook(), RouteDecoratorInner(), OnRouteDecoratorInner(), RouteOuter(),
+class _KeySet(Val):
+    """a one-element set {rule}"""
+    def __init__(self, item):
+        self.item = item
+
+    def snapshot(self, X):
+        return VList([self.item])
+
+
+class RouterGetItem(Contract):
+    """RadiRouter.__getitem__: lookup by name goes to the name index with that name; lookup by rule ({rule} or {'rule': r}) and by
+    pattern ({'pattern': p}) go to _match - the same lookup registration and removal use - as rule=r resp. route_pattern=p; the
+    result of that lookup is returned as it is."""
+    props = ('C11',)
+    file = 'ombott/router/radirouter.py'
+    qualname = 'RadiRouter.__getitem__'
+    assumptions = ('RouteKey.check_args refuses keys with more than one item (callee)',)
+    expected_labels = ('name.looked_up_in_the_name_index', 'rule_or_pattern.looked_up_with__match_under_the_right_keyword')
+
+    def pre(self, X):
+        self.mode = ['name', 'set', 'dict_rule', 'dict_pattern'][X.choose(4, 'key: name | {rule} | {"rule": r} | {"pattern": p}')]
+        self.text = X.fresh_str('text')
+        self.result = _opq(X, 'result', 'route')
+        self.calls, self.named = [], []
+        c = self
+        if self.mode == 'name':
+            key = self.text
+        elif self.mode == 'set':
+            key = _KeySet(self.text)
+        else:
+            key = VObj('KeyDict', {('rule' if self.mode == 'dict_rule' else 'pattern'): self.text})
+
+        def pop(X, args, kwargs):
+            d, k = args[0], z3.simplify(args[1].t).as_string()
+            if k not in d.fields:
+                if len(args) > 2:
+                    return args[2]
+                X.raise_(KeyError, 'missing')
+            return d.fields.pop(k)
+        self.stubs = {'Router._match': lambda X, a, k: (c.calls.append((list(a[1:]), dict(k))), c.result)[1],
+                      'NamesIdx.get': lambda X, a, k: (c.named.append((list(a[1:]), dict(k))), c.result)[1],
+                      'RoutesIdx.get': lambda X, a, k: _opq(X, 'entry_of_the_route_index', 'route'),
+                      'RouteKey.check_args': lambda X, a, k: NONE,
+                      'KeyDict.copy': lambda X, a, k: VObj('StrDict', dict(a[0].fields)),
+                      'StrDict.pop': pop}
+        return {'self': VObj('Router', {'named_routes': VObj('NamesIdx', {}), 'routes': VObj('RoutesIdx', {})}), 'key': key}
+
+    def isinstance_hook(self, X, v, classes):
+        if isinstance(v, _KeySet):
+            return z3.BoolVal(set in classes)
+        if isinstance(v, VObj) and v.cls == 'KeyDict':
+            return z3.BoolVal(dict in classes)
+        return None
+
+    def construct_hook(self, X, pyclass, args, kwargs):
+        if pyclass is dict and not args:
+            return VObj('StrDict', dict(kwargs))
+        if pyclass is list and len(args) == 1 and isinstance(args[0], _KeySet):
+            return VList([args[0].item])
+        return None
+
+    def contains_hook(self, X, container, item):
+        if isinstance(container, VObj) and container.cls == 'StrDict' and isinstance(item, VStr):
+            return z3.BoolVal(z3.simplify(item.t).as_string() in container.fields)
+        return None
+
+    def setitem_hook(self, X, obj, key, val):
+        if isinstance(obj, VObj) and obj.cls == 'StrDict':
+            obj.fields[z3.simplify(key.t).as_string()] = val
+            return True
+        return None
+
+    def post(self, X, ret):
+        if self.mode == 'name':
+            X.prove('name.looked_up_in_the_name_index',
+                    z3.BoolVal(ret is self.result and not self.calls and len(self.named) == 1 and self.named[0][0][:1] == [self.text]
+                               and len(self.named[0][0]) <= 2 and not self.named[0][1]))
+        else:
+            kw = 'route_pattern' if self.mode == 'dict_pattern' else 'rule'
+            ok = (ret is self.result and not self.named and len(self.calls) == 1 and not self.calls[0][0]
+                  and set(self.calls[0][1]) == {kw} and self.calls[0][1][kw] is self.text)
+            X.prove('rule_or_pattern.looked_up_with__match_under_the_right_keyword', z3.BoolVal(bool(ok)))
+
+    def post_raise(self, X, exc):
+        X.prove('raises.nothing', z3.BoolVal(False))
+
+
+CONTRACTS = [RouterGetItem(), AppRemoveHook(), AppOn(), AppOnDecoratorInner(), RemoveNamedRouters(), RouterRemove(), HookInstaller(), AddRoute(), RemoveRoute(), RemoveRouteHook(), RouteDecoratorInner(), OnRouteDecoratorInner(), RouteOuter(),
              OnRouteOuter(), GetHook()]
